@@ -165,18 +165,38 @@ def partial_clauses(E, e, D0, K, ks):
 
 
 def api_cases(E, ctx, D0, K):
-    ks = E.ghost["ks"]
+    ks = E.ghost.get("ks")
     db = ctx.self.fields["db"]
+    unit_mode = hasattr(ctx, "outcome")
 
     def ens(a):
         if not isinstance(a, Obj) or "raw" not in a.fields:
             return [("is-a-HexaryTrieNode", False)]
         Dn = HM.alpha(a.fields["raw"])
-        return [("view", mk_bool(HM.hlk(Dn, ks) == HM.hlk(D0, z3.Concat(K, ks))))] + annotation_clauses(E, a, Dn)
-    return [Case("node", ensures=ens),
-            Case("partial", raises=partial_cls(E), exc=lambda e: partial_clauses(E, e, D0, K, ks)),
+        return [("view", mk_bool(HM.hlk(Dn, ks) == HM.hlk(D0, z3.Concat(K, ks)))),
+                ("one-hop-reaches-the-child", mk_bool(z3.Implies(HC.one_hop(D0, K), Dn == HC.hop_target(E, D0, K)))),
+                ("well-formed", mk_bool(HM.hwfp(Dn)))] + annotation_clauses(E, a, Dn)
+
+    def make():
+        # callee view: the annotated node of some well-formed node Dn that is what the walk from D0 along K reaches
+        Dn = z3.Const(E.fresh_name("reached.D"), HNode)
+        E.assume(mk_bool(HM.hwfp(Dn)))
+        HM.unfold_wf(E, Dn)
+        E.assume(mk_bool(z3.Implies(HC.one_hop(D0, K), Dn == HC.hop_target(E, D0, K))))
+        if ks is not None:
+            E.assume(mk_bool(HM.hlk(Dn, ks) == HM.hlk(D0, z3.Concat(K, ks))))
+        E.assume(mk_bool(HM.hlk(Dn, z3.Empty(SeqI)) == HM.hlk(D0, K)))
+        E.ghost.setdefault("reached_rules", []).append((Dn, D0, K))
+        return make_annotated(E, Dn, HM.materialize(E, Dn))
+
+    def make_partial():
+        return ExcObj(partial_cls(E), (HM.nibs(E, "traversed"), make_annotated(E, HNode.HBlank, b""), HM.nibs(E, "tail")))
+    return [Case("node", ensures=ens if unit_mode else None, make=None if unit_mode else make),
+            Case("partial", when=mk_bool(z3.Not(HC.one_hop(D0, K))), raises=partial_cls(E),
+                 exc=lambda e: partial_clauses(E, e, D0, K, ks), make=None if unit_mode else make_partial),
             Case("missing-node", raises=HC.mtn_cls(E),
-                 exc=lambda e: HC.missing_clauses(E, e, ctx.old_has(db), D0, K, ks))]
+                 exc=lambda e: HC.missing_clauses(E, e, ctx.old_has(db), D0, K, ks),
+                 make=None if unit_mode else HC.mtn_make(E, ctx.old_has(db), D0, K))]
 
 
 def traverse_setup(E):
@@ -205,7 +225,22 @@ def tfrom_setup(E):
 
 def tfrom_cases(E, ctx):
     K = ops.seq_term_as(ctx.trie_key_input, "int")
-    return api_cases(E, ctx, E.ghost["D0"], K)
+    if hasattr(ctx, "outcome"):
+        return api_cases(E, ctx, E.ghost["D0"], K)
+    return api_cases(E, ctx, HM.alpha(ctx.parent_node.fields["raw"]), K)
+
+
+def tfrom_requires(E, ctx):
+    from contracts.seqspec import allnib_of
+    p = ctx.parent_node
+    if not isinstance(p, Obj) or "raw" not in p.fields:
+        return [("parent-is-an-annotated-node", False)]
+    D = HM.alpha(p.fields["raw"])
+    side = []
+    ok = allnib_of(ops.seq_term_as(ctx.trie_key_input, "int"), side)
+    for f in side:
+        E.assume(mk_bool(f))
+    return [("parent-well-formed", mk_bool(HM.hwfp(D))), ("path-is-nibbles", mk_bool(ok))]
 
 
 def root_node_setup(E):
@@ -238,6 +273,6 @@ def register(reg):
     reg.add(g, Contract(H + "traverse", ["self", "trie_key_input"], traverse_cases, setup=traverse_setup,
                         props=("C08", "C07"), callee=False))
     reg.add(g, Contract(H + "traverse_from", ["self", "parent_node", "trie_key_input"], tfrom_cases, setup=tfrom_setup,
-                        props=("C08", "C07"), callee=False))
+                        props=("C08", "C07", "C10"), requires=tfrom_requires))
     reg.add(g, Contract(H + "root_node", ["self"], root_node_cases, setup=root_node_setup, props=("C08", "C07"),
                         callee=False))
